@@ -285,3 +285,36 @@ func init() {
 		return in.appendOp(a[0], one, bt)
 	}
 }
+
+func init() {
+	// crypto/subtle.ConstantTimeCompare: 1 iff equal length and equal content
+	models["crypto/subtle.ConstantTimeCompare"] = func(in *Interp, fn *ssa.Function, a []Value) Value {
+		x, y := a[0].(*SliceV), a[1].(*SliceV)
+		eq := smt.And(smt.Eq(in.lenOf(x), in.lenOf(y)), smt.Eq(in.stringOfBytes(x), in.stringOfBytes(y)))
+		return smt.Ite(eq, smt.BV(1, 64), smt.BV(0, 64))
+	}
+	// encoding/hex.Encode(dst, src): two lower-case digits per byte (concrete-length src)
+	models["encoding/hex.Encode"] = func(in *Interp, fn *ssa.Function, a []Value) Value {
+		dst, src := a[0].(*SliceV), a[1].(*SliceV)
+		if src.SB != nil || dst.SB != nil {
+			in.end("unmodelled", "hex.Encode over symbolic-length buffers at %s", in.where())
+		}
+		if dst.Len < 2*src.Len {
+			in.goPanic("hex.Encode: destination too short")
+		}
+		sa := src.Arr.V.(*ArrayV)
+		da := in.load(&Ptr{Obj: dst.Arr}).(*ArrayV)
+		ne := append([]Value{}, da.E...)
+		nib := func(n *smt.Term) *smt.Term {
+			z := smt.ZeroExt(n, 8)
+			return smt.Ite(smt.BVUlt(n, smt.BV(10, 4)), smt.BVAdd(z, smt.BV('0', 8)), smt.BVAdd(z, smt.BV('a'-10, 8)))
+		}
+		for k := 0; k < src.Len; k++ {
+			b := sa.E[src.Off+k].(*smt.Term)
+			ne[dst.Off+2*k] = nib(smt.Extract(b, 7, 4))
+			ne[dst.Off+2*k+1] = nib(smt.Extract(b, 3, 0))
+		}
+		in.store(&Ptr{Obj: dst.Arr}, &ArrayV{E: ne})
+		return smt.BV(uint64(2*src.Len), 64)
+	}
+}
